@@ -1010,7 +1010,8 @@ def ref_eval(a, env):  # noqa: PLR0911, PLR0912
         return x * y
     if k == "div":
         return x // y
-    if isinstance(x, int) and isinstance(y, int) and y > 0 and abs(x) > 1 and y * math.log2(abs(x)) > 4000:
+    if (isinstance(x, int) and isinstance(y, int) and y > 0 and abs(x) > 1
+            and (y.bit_length() > 16 or y * abs(x).bit_length() > 4000)):
         raise Guard
     return x ** y
 
@@ -1102,6 +1103,29 @@ def outcome_of(f):
     except Exception as e:  # noqa: BLE001
         return ("x", type(e).__name__)
     return ("v", type(v).__name__, repr(v))
+
+
+class CaseTimeout(Exception):
+    pass
+
+
+def _on_alarm(signum, frame):
+    raise CaseTimeout
+
+
+def calc_problem_timed(toks, text: str, env: dict, mode: str | None = None, limit: int = 10):
+    """`calc_problem` under an alarm: arithmetic on huge numbers is not what is being checked"""
+    import signal
+
+    old = signal.signal(signal.SIGALRM, _on_alarm)
+    signal.alarm(limit)
+    try:
+        return calc_problem(toks, text, env, mode)
+    except (CaseTimeout, MemoryError):
+        return "timeout"
+    finally:
+        signal.alarm(0)
+        signal.signal(signal.SIGALRM, old)
 
 
 def calc_problem(toks, text: str, env: dict, mode: str | None = None) -> dict | None:
@@ -1273,13 +1297,16 @@ def _neg_job(args):
 def _calc_random_job(args):
     sd, n, max_units = args
     rng = random.Random(sd)
-    res = {"kind": "calc-random", "n": 0, "problems": [], "corr": [], "keys": set()}
+    res = {"kind": "calc-random", "n": 0, "problems": [], "corr": [], "keys": set(), "timeouts": 0}
     for i in range(n):
         toks = gen_toks(rng, rng.randrange(1, max_units + 1), depth=rng.choice((0, 1, 2, 3)))
         text = toks_text(toks, rng)
         env = gen_env(rng)
         mode = None if i % 4 else MODES[(i // 4) % 4]
-        p = calc_problem(toks, text, env, mode)
+        p = calc_problem_timed(toks, text, env, mode)
+        if p == "timeout":
+            res["timeouts"] += 1
+            continue
         res["n"] += 1
         res["keys"].add(hashlib.sha1(toks_enc(toks).encode()).digest()[:8])
         if p:
